@@ -102,6 +102,8 @@ class SeqTh:
         ax([s, n, x], Implies(And(0 <= n, n <= Len(s), Has(Take(s, n), x)), Has(s, x)), Has(Take(s, n), x))  # -- lean: has_take
         ax([s, n, x], Implies(And(0 <= n, n <= Len(s), Has(Drop(s, n), x)), Has(s, x)), Has(Drop(s, n), x))  # -- lean: has_drop
         ax([s, n], Implies(And(0 <= n, n <= Len(s)), App(Take(s, n), Drop(s, n)) == s), App(Take(s, n), Drop(s, n)))  # -- lean: take_append_drop
+        ax([s, m, n, x], Implies(And(m == n + 1, 0 <= n, n < Len(s)), Has(Take(s, m), x) == Or(Has(Take(s, n), x), x == At(s, n))),
+           MultiPattern(Has(Take(s, m), x), Take(s, n)))                                 # -- lean: has_take_succ
         ax([s, a, b], Implies(And(0 <= a, a <= b, b <= Len(s)), Len(Slice(s, a, b)) == b - a), Slice(s, a, b))  # -- lean: len_slice
         ax([s, a, b, j], Implies(And(0 <= a, a <= b, b <= Len(s), 0 <= j, j < b - a), At(Slice(s, a, b), j) == At(s, a + j)),
            At(Slice(s, a, b), j))                                                        # -- lean: at_slice
